@@ -2,7 +2,9 @@ package harness
 
 import (
 	"fmt"
+	"github.com/gorilla/websocket"
 	"net"
+	"net/http"
 	"os"
 	"runtime"
 	"strings"
@@ -55,12 +57,16 @@ func mangosGoroutines() []string {
 
 func waitNoGoroutines(d time.Duration) []string {
 	dl := time.Now().Add(d)
+	nap := 500 * time.Microsecond
 	for {
 		g := mangosGoroutines()
 		if len(g) == 0 || time.Now().After(dl) {
 			return g
 		}
-		time.Sleep(20 * time.Millisecond)
+		time.Sleep(nap)
+		if nap < 20*time.Millisecond {
+			nap *= 2
+		}
 	}
 }
 
@@ -422,5 +428,100 @@ func TestCloseReal(t *testing.T) {
 			r.Emit("rcensus", "n", len(g), "g", fmt.Sprint(g))
 		}()
 		out.Add("closereal-inproc-dialwait", rec.Ev{"tran": "inproc"}, "inproc dial waiting at close", sim.Result{Lines: r.Lines(), Status: status, Detail: detail})
+	}
+	// Close racing with arriving connections: whatever the listener had already taken in when it was closed -
+	// silent raw connections (tcp, ipc), WebSocket upgrades in progress (ws) - is closed, none is left parked
+	for _, tn := range []string{"tcp", "ipc", "ws"} {
+		var tr realTran
+		for _, x := range realTrans() {
+			if x.name == tn {
+				tr = x
+			}
+		}
+		r := rec.New()
+		status, detail := "ok", ""
+		func() {
+			defer func() {
+				if x := recover(); x != nil {
+					status, detail = "panic", fmt.Sprint(x)
+				}
+			}()
+			tries := count(150, 1500)
+			established, survivors, leaked := 0, 0, 0
+			leakDetail := ""
+			for i := 0; i < tries && leaked == 0; i++ {
+				s, _ := pair.NewSocket()
+				l, err := s.NewListener(tr.addr(2400+i%50), nil)
+				if err != nil {
+					panic(err)
+				}
+				if err = l.Listen(); err != nil {
+					_ = s.Close()
+					continue
+				}
+				addr := l.Address()
+				var wg sync.WaitGroup
+				var mu sync.Mutex
+				var conns []interface{ Close() error }
+				var probes []func(time.Duration) bool // true: closed by the server within the time
+				for k := 0; k < 4; k++ {
+					wg.Add(1)
+					go func() {
+						defer wg.Done()
+						if tn == "ws" {
+							d := websocket.Dialer{HandshakeTimeout: time.Second, Subprotocols: []string{"pair.sp.nanomsg.org"}}
+							c, _, err := d.Dial(addr, http.Header{})
+							if err != nil {
+								return
+							}
+							mu.Lock()
+							conns = append(conns, c)
+							probes = append(probes, func(d time.Duration) bool {
+								_ = c.SetReadDeadline(time.Now().Add(d))
+								_, _, err := c.ReadMessage()
+								ne, ok := err.(net.Error)
+								return !(ok && ne.Timeout())
+							})
+							mu.Unlock()
+							return
+						}
+						c, err := dialRaw(addr, tn)
+						if err != nil {
+							return
+						}
+						mu.Lock()
+						conns = append(conns, c)
+						probes = append(probes, func(d time.Duration) bool { return closedWithin(c, d) })
+						mu.Unlock()
+					}()
+				}
+				time.Sleep(time.Duration(100+(i*37)%700) * time.Microsecond)
+				_ = s.Close()
+				wg.Wait()
+				// The verdict is taken on the library's side, with the peers still connected and silent: nothing of
+				// the closed socket may be left running (a worker in a handshake, an HTTP handler waiting for its
+				// pipe).  What the peers see is recorded too but decides nothing: a connection the kernel completed
+				// for a listener that was closed before accepting it looks open to a silent client for ever.
+				if g := waitNoGoroutines(2 * time.Second); len(g) > 0 {
+					leaked++
+					leakDetail = fmt.Sprint(g)
+				}
+				established += len(probes)
+				if leaked > 0 {
+					for _, p := range probes {
+						if !p(500 * time.Millisecond) {
+							survivors++
+						}
+					}
+				}
+				for _, c := range conns {
+					_ = c.Close()
+				}
+			}
+			r.Emit("rrace", "tran", tn, "tries", tries, "established", established, "survivors", survivors, "leaked", leaked, "g", leakDetail)
+			g := waitNoGoroutines(3 * time.Second)
+			r.Emit("rcensus", "n", len(g), "g", fmt.Sprint(g))
+		}()
+		out.Add("closereal-race-"+tn, rec.Ev{"tran": tn}, tn+" close racing with connections", sim.Result{Lines: r.Lines(), Status: status, Detail: detail})
 	}
 }
